@@ -39,9 +39,9 @@ class SatSystem(System):
         cfgs = []
         for n, p in ((1, 0.5), (3, 0.1), (2, 0.3)):
             f = CountingBloomFilter(n, p)
-            cfgs.append(dict(kind="cbf", n=n, p=p, m=f.number_bits, k=f.number_hashes, depth=depth, cost=50))
+            cfgs.append(dict(kind="cbf", n=n, p=p, m=f.number_bits, k=f.number_hashes, depth=depth, cost=30000))
         for w, d in ((1, 1), (2, 2), (3, 2)):
-            cfgs.append(dict(kind="cms", width=w, depth_=d, depth=depth, cost=40))
+            cfgs.append(dict(kind="cms", width=w, depth_=d, depth=depth, cost=30000))
         if seed:
             r = seed % len(cfgs)
             cfgs = cfgs[r:] + cfgs[:r]
